@@ -69,6 +69,11 @@ def gen_cases(tier, seed):
     # load(limit_rows=n): the rows after the n-th stay in the source
     for i in range({'quick': 4, 'thorough': 24}[tier]):
         yield {'family': 'limit_rows', 'op': 'load_limit_rows', 'idx': 8000 + i, 'seed': seed}
+    # load((descriptor, iterators), resources=<selector>): the rows of the resources that are not selected stay where they are
+    for i in range(2):
+        yield {'family': 'tuple_selector', 'op': 'load_tuple_selector', 'idx': 8500 + i, 'seed': seed}
+    # a data package whose resource is a JSON file (as dump_to_path(format='json') writes it) is read as it is delivered
+    yield {'family': 'json_package', 'op': 'load_json_package', 'idx': 8600, 'seed': seed}
     # a step that finishes its resource on its own (dumper, printer, stream) in front of a concatenate of several resources
     for i, obs in enumerate(['dump_to_path', 'printer', 'stream', 'validate']):
         yield {'family': 'observer_then_concatenate', 'op': 'concatenate_after_' + obs, 'obs': obs, 'idx': 9000 + i, 'seed': seed}
@@ -100,7 +105,7 @@ def run_case(case):
     sizes = [2000, 20000] + ([200000] if os.environ.get('VERIF_TIER') == 'thorough' and case['idx'] % 10 == 0 else [])
     if case['family'] == 'csv_file':
         return run_csv(case, rng, d, counters, cov, viol, sizes)
-    if case['family'] in ('limit_rows', 'observer_then_concatenate'):
+    if case['family'] in ('limit_rows', 'observer_then_concatenate', 'tuple_selector', 'json_package'):
         return run_special(case, rng, d, counters, cov, viol, sizes)
     nsrc = rng.choice([1, 1, 2, 3]) if case['family'] == 'composition' else rng.choice([1, 2])
     tables = []
@@ -207,7 +212,7 @@ def run_special(case, rng, d, counters, cov, viol, sizes):
     limit = rng.choice([1, 25, 150])
     via_tuple = rng.random() < 0.5
     prog = {'family': fam, 'limit_rows': limit, 'iterators_given_as': 'iterator' if via_tuple else 'list'} if fam == 'limit_rows' else \
-        {'family': fam, 'observer': case['obs']}
+        {'family': fam, 'observer': case.get('obs'), 'selected': ['a', 'b'][case['idx'] % 2]}
     res = []
     for N in sizes:
         pulled = [0, 0]
@@ -228,7 +233,43 @@ def run_special(case, rng, d, counters, cov, viol, sizes):
                 if stats['deliveries'] > 200:
                     stats['max_steady'] = max(stats['max_steady'], la)
                 yield row
-        if fam == 'limit_rows':
+        if fam == 'json_package':
+            import json as json_
+            with boot.quiet():
+                d.Flow(({'id': BASE + i, 's': 'v%d' % (i % 5)} for i in range(N)), d.dump_to_path('jp_%d' % N, format='json')).process()
+            data_path = os.path.realpath(os.path.join('jp_%d' % N, json_.load(open('jp_%d/datapackage.json' % N))['resources'][0]['path']))
+            size = os.path.getsize(data_path)
+
+            def bytes_read():
+                # position of whoever has the data file open (the reader underneath load), in rows of average size
+                best = None
+                for fd in os.listdir('/proc/self/fd'):
+                    try:
+                        if os.path.realpath('/proc/self/fd/' + fd) == data_path:
+                            for ln in open('/proc/self/fdinfo/' + fd):
+                                if ln.startswith('pos:'):
+                                    best = max(best or 0, int(ln.split()[1]))
+                    except OSError:
+                        pass
+                # nobody holds the file open while its rows are being delivered: it has been read to its end already
+                return size if best is None else best
+
+            def mk_sink(N, size, stats, pulled):
+                def sink_json(rows):
+                    for row in rows:
+                        stats['deliveries'] += 1
+                        if stats['deliveries'] in (1, 100):
+                            la = bytes_read() * N // size - stats['deliveries']
+                            stats['max_initial'] = max(stats['max_initial'], la)
+                            pulled[0] = max(pulled[0], bytes_read() * N // size)
+                        yield row
+                return sink_json
+            steps = [d.load('jp_%d/datapackage.json' % N), mk_sink(N, size, stats, pulled)]
+        elif fam == 'tuple_selector':
+            desc = {'resources': [{'name': 'a', 'path': 'a.csv', 'schema': {'fields': copy.deepcopy(fl)}},
+                                  {'name': 'b', 'path': 'b.csv', 'schema': {'fields': copy.deepcopy(fl)}}]}
+            steps = [d.load((desc, iter([g(0), g(1)])), resources=prog['selected'], strip=False), sink]
+        elif fam == 'limit_rows':
             desc = {'resources': [{'name': 'r0', 'path': 'r0.csv', 'schema': {'fields': fl}}]}
             # (load does not take a bare generator: the iterators come as a list or as an iterator of iterators)
             src = d.load((desc, iter([g(0)])), limit_rows=limit) if via_tuple else d.load((desc, [g(0)]), limit_rows=limit)
@@ -274,7 +315,9 @@ def judge(case, prog, specs, sizes, res, counters, cov, viol):
     ops = sorted({s['op'] for s in specs}) if specs else [label]
     for a, b, Na, Nb in zip(res, res[1:], sizes, sizes[1:]):
         for key in ('max_initial', 'max_steady', 'max_next_source_ahead'):
-            if b[key] > a[key] + slack or b[key] >= Nb / 4:
+            # (json_package measures in read-buffer units: the smaller file fits into one buffer, so only the share of the
+            # larger file that was read ahead is judged)
+            if (b[key] > a[key] + slack and case['family'] != 'json_package') or b[key] >= Nb / 4:
                 add('lookahead_grows', '%s grows with the input: %d at N=%d, %d at N=%d'
                     % (key, a[key], Na, b[key], Nb), 'grows/%s' % ('+'.join(ops) if len(ops) == 1 else 'composition'))
                 break
